@@ -72,15 +72,18 @@ const (
 	KRecCat // record, merge = concatenation of payloads
 	KInt64Aff // int64 with the order-sensitive merge v*3+d
 	KStrMin   // string whose merge keeps the smaller of value and delta (result may be shorter than the delta)
+	KF64I     // float64 holding small integers only: merges (float addition), WithFloat, float aggregates are exact
+	KF32I     // float32, likewise
 	nKinds
 )
 
 var kindNames = []string{"int", "int16", "int32", "int64", "uint", "uint16", "uint32", "uint64",
-	"float32", "float64", "string", "stringcat", "enum", "bool", "key", "record", "recordcat", "int64aff", "stringmin"}
+	"float32", "float64", "string", "stringcat", "enum", "bool", "key", "record", "recordcat", "int64aff", "stringmin", "float64int", "float32int"}
 
 func (k Kind) String() string { return kindNames[k] }
-func (k Kind) Numeric() bool  { return k <= KF64 || k == KInt64Aff }
-func (k Kind) Float() bool    { return k == KF32 || k == KF64 }
+func (k Kind) Numeric() bool  { return k <= KF64 || k == KInt64Aff || k.IntFloat() }
+func (k Kind) Float() bool    { return k == KF32 || k == KF64 || k.IntFloat() }
+func (k Kind) IntFloat() bool { return k == KF64I || k == KF32I }
 func (k Kind) Signed() bool {
 	return k == KInt || k == KInt16 || k == KInt32 || k == KInt64 || k == KInt64Aff
 }
@@ -88,9 +91,9 @@ func (k Kind) Width() int {
 	switch k {
 	case KInt16, KUint16:
 		return 2
-	case KInt32, KUint32, KF32:
+	case KInt32, KUint32, KF32, KF32I:
 		return 4
-	case KInt, KInt64, KUint, KUint64, KF64, KInt64Aff:
+	case KInt, KInt64, KUint, KUint64, KF64, KInt64Aff, KF64I:
 		return 8
 	case KBool:
 		return 0
@@ -99,7 +102,7 @@ func (k Kind) Width() int {
 }
 func (k Kind) Stringy() bool { return k.Width() == -1 }
 func (k Kind) CanMerge() bool {
-	return (k.Numeric() && !k.Float()) || k == KStr || k == KStrCat || k == KRec || k == KRecCat || k == KStrMin
+	return (k.Numeric() && !k.Float()) || k.IntFloat() || k == KStr || k == KStrCat || k == KRec || k == KRecCat || k == KStrMin
 }
 
 // LenChangingMerge: merging may change the stored length (finding K2 domain)
@@ -139,9 +142,9 @@ func (c Col) Create(coll *column.Collection) error {
 		return coll.CreateColumn(c.Name, column.ForUint32())
 	case KUint64:
 		return coll.CreateColumn(c.Name, column.ForUint64())
-	case KF32:
+	case KF32, KF32I:
 		return coll.CreateColumn(c.Name, column.ForFloat32())
-	case KF64:
+	case KF64, KF64I:
 		return coll.CreateColumn(c.Name, column.ForFloat64())
 	case KStr:
 		return coll.CreateColumn(c.Name, column.ForString())
@@ -176,6 +179,8 @@ func (c Col) CoqCol() string {
 	switch {
 	case c.K == KInt64Aff:
 		return "(col_num 64 merge_affine)"
+	case c.K.IntFloat():
+		return fmt.Sprintf("(col_num %d merge_fadd)", c.K.Width()*8)
 	case c.K == KInt:
 		return "(col_int merge_add)"
 	case c.K == KUint:
@@ -211,9 +216,9 @@ func (c Col) Set(r column.Row, v Val) {
 		r.SetUint32(c.Name, uint32(v.N))
 	case KUint64:
 		r.SetUint64(c.Name, v.N)
-	case KF32:
+	case KF32, KF32I:
 		r.SetFloat32(c.Name, math.Float32frombits(uint32(v.N)))
-	case KF64:
+	case KF64, KF64I:
 		r.SetFloat64(c.Name, math.Float64frombits(v.N))
 	case KStr, KStrCat, KStrMin:
 		r.SetString(c.Name, string(v.B))
@@ -267,9 +272,9 @@ func (c Col) AnyValue(v Val, tiny bool) any {
 		return uint32(v.N)
 	case KUint64:
 		return v.N
-	case KF32:
+	case KF32, KF32I:
 		return math.Float32frombits(uint32(v.N))
-	case KF64:
+	case KF64, KF64I:
 		return math.Float64frombits(v.N)
 	case KStr, KStrCat, KStrMin, KEnum:
 		return string(v.B)
@@ -299,6 +304,10 @@ func (c Col) Merge(r column.Row, v Val) {
 		r.MergeUint32(c.Name, uint32(v.N))
 	case KUint64:
 		r.MergeUint64(c.Name, v.N)
+	case KF32I:
+		r.MergeFloat32(c.Name, math.Float32frombits(uint32(v.N)))
+	case KF64I:
+		r.MergeFloat64(c.Name, math.Float64frombits(v.N))
 	case KStr, KStrCat, KStrMin:
 		r.MergeString(c.Name, string(v.B))
 	case KRec, KRecCat:
@@ -333,10 +342,10 @@ func (c Col) Get(r column.Row) (Val, bool) {
 	case KUint64:
 		v, ok := r.Uint64(c.Name)
 		return Val{W: 8, N: v}, ok
-	case KF32:
+	case KF32, KF32I:
 		v, ok := r.Float32(c.Name)
 		return Val{W: 4, N: uint64(math.Float32bits(v))}, ok
-	case KF64:
+	case KF64, KF64I:
 		v, ok := r.Float64(c.Name)
 		return Val{W: 8, N: math.Float64bits(v)}, ok
 	case KStr, KStrCat, KStrMin:
@@ -382,6 +391,10 @@ func (c Col) RandVal(r *Rng, long bool) Val {
 			return Val{W: -1, B: b}
 		}
 		return Val{W: -1, B: []byte(strAlphabet[r.Intn(len(strAlphabet))])}
+	case c.K == KF64I:
+		return Val{W: 8, N: math.Float64bits(float64(r.Intn(250) - 50))}
+	case c.K == KF32I:
+		return Val{W: 4, N: uint64(math.Float32bits(float32(r.Intn(250) - 50)))}
 	case c.K == KF32:
 		edges := []uint32{0, 0x80000000, 0x3f800000, 0xbf800000, 0x7fc00000, 0x7fc00001, 0xffc12345, 0x7f800000, 0xff800000, 1, 0x00800000, 0x41200000}
 		return Val{W: 4, N: uint64(edges[r.Intn(len(edges))])}
